@@ -427,6 +427,8 @@ STANDINS = {
 }
 
 
+for _p in ('C01', 'C02'):
+    STANDINS.setdefault(_p, []).append(dict(STANDINS['C18'][0]))     # the Window twin also guards the read side of C01 and the write side of C02
 for _p in ('C01', 'C02', 'C04', 'C06', 'C07', 'C08', 'C13', 'C15', 'C16'):
     STANDINS.setdefault(_p, []).append(
         {'name': 'scenarios', 'bin': 'scenarios', 'extract': False, 'confirm': True, 'args': {'quick': [_p, '--quick'], 'thorough': [_p]},
